@@ -1198,7 +1198,9 @@ class WebSocketProtocol13(WebSocketProtocol):
         new_len = payloadlen
         if self._fragmented_message_buffer is not None:
             new_len += len(self._fragmented_message_buffer)
-        if new_len > self.params.max_message_size:
+        # Control frames (at most 125 bytes, checked above) may arrive between
+        # the fragments of a message and do not count towards its size.
+        if not opcode_is_control and new_len > self.params.max_message_size:
             self.close(1009, "message too big")
             self._abort()
             return
